@@ -290,10 +290,11 @@ var corpusHelper = [][3]string{
 	{"blocklist.Fetch", "result", `<blocklist xmlns="urn:xmpp:blocking"><item jid="a@b"/><!--c--></blocklist>`},
 	{"bookmarks.Fetch", "result", `<pubsub xmlns="http://jabber.org/protocol/pubsub"><items node="urn:xmpp:bookmarks:1"><item id="a@b"><!--c--></item></items></pubsub>`},
 	{"pubsub.Fetch", "result", `<pubsub xmlns="http://jabber.org/protocol/pubsub"><items node="n"><item id="i1"/><?pi x?></items></pubsub>`},
-	// minimised-by-hand is pending: the three random witnesses of the same wedge, verbatim
-	{"commands.Fetch", "result", `<query xmlns="jabber:iq:roster"><item xmlns="http://jabber.org/protocol/muc#user" block-size="error"><!--c--><query xmlns="jabber:iq:version"/></item></query><iq xmlns="jabber:client" jid="remove" nick="both" from="unavailable"/>`},
-	{"disco.WalkItem", "result", `<query xmlns="http://jabber.org/protocol/disco#items"><item xmlns="urn:xmpp:mam:2" jid="a.example.net" node="n"><?pi x?></item></query><query xmlns="http://jabber.org/protocol/disco#items"><item jid="a.example.net" node="n"><ping xmlns="urn:xmpp:ping" nick="headline"><slot xmlns="urn:xmpp:http:upload:0" status="normal" stamp="get" queryid="set"/> </ping></item></query>`},
-	{"bookmarks.Fetch", "result", `<open xmlns="http://jabber.org/protocol/ibb" url="x" by="remove" hash="x"><x xmlns="" complete="65536"><received xmlns="urn:xmpp:receipts" type="set"/><!--c--></x></open>`},
+	// the same wedge, minimised with the delta-debugging tool (min.go) from three random
+	// witnesses: a rejected token inside a child the iterator has already handed out
+	{"commands.Fetch", "result", `<query xmlns="jabber:iq:roster"><item xmlns="http://jabber.org/protocol/muc#user"><!--c--></item></query>`},
+	{"disco.WalkItem", "result", `<query xmlns="http://jabber.org/protocol/disco#items"><item xmlns="urn:xmpp:mam:2"><?pi x?></item></query>`},
+	{"bookmarks.Fetch", "result", `<open xmlns="http://jabber.org/protocol/ibb"><x xmlns=""><!--c--></x></open>`},
 	// the follow-up page request is answered with an error
 	{"disco.FetchItems", "result", `<query xmlns="http://jabber.org/protocol/disco#items"><item jid="a.example.net"/><set xmlns="http://jabber.org/protocol/rsm"><first>a</first><last>b</last></set></query>`},
 	{"commands.Execute", "error", errPayload},
